@@ -119,6 +119,10 @@ class ImplWorld:
         if length != '-': kw['length'] = None if length == 'N' else int(length)
         if pfx != '-': kw['prefix'] = pfx
         if dt != '-': kw['dtype'] = None if dt == 'N' else dt
+        # every other request that gives a length is made with POSITIONAL arguments (name, length, prefix, dtype)
+        self.ncalls = getattr(self, 'ncalls', 0) + 1
+        if 'length' in kw and kw['length'] is not None and self.ncalls % 2:
+            return self._ret(k(kw.get('name'), kw['length'], kw.get('prefix'), kw.get('dtype')))
         return self._ret(k(**kw))
 
     def op_inv(self, h):
